@@ -513,11 +513,15 @@ static void gen_junk_resolv(vh_rng_t *r, int cls, cfg_bb_t *l)
                                          "1.2.3.4:Z", "[1.2.3.4", "1::2::3", "[::1]:9999999",
                                          "fe80::1", "fe80::1%nosuchif", "dns://", "dns://host.example",
                                          "dns+tls://1.2.3.4", "http://1.2.3.4", "1.2.3.4%", ":53",
-                                         "[]", "1.2.3.4/24", "fec0::dead", "-1.2.3.4" };
+                                         "[]", "1.2.3.4/24", "fec0::dead", "-1.2.3.4",
+                                         /* a port is a 16-bit number */
+                                         "198.51.100.7:65589", "198.51.100.7:99999", "[2001:db8::7]:65536",
+                                         "dns://198.51.100.7:70000", "dns://198.51.100.7:53?tcpport=65589",
+                                         "dns://198.51.100.7?tcpport=abc", "dns://198.51.100.7?tcpport=-1" };
   static const char *const badsort[] = { "abc", "1.2.3.4/99", "1.2.3.4/", "::1/129",
                                          "1.2.3.4/255.255.x.0", "10.0.0.0/8 junk", "1.2.3.4*/16",
                                          "xyzzy ; lwk", "1 0123456789012345", "/8", "1.2.3.4/-1",
-                                         "2001:db8::/64 1.2.3.4/33" };
+                                         "2001:db8::/64 1.2.3.4/33", "10.0.0.0/4294967304", "2001:db8::/4294967360" };
   /* values no unsigned int can hold are malformed numbers, not large ones */
   static const char *const ndotsnn[] = { "ndots:abc", "ndots:", "ndots", "ndots:x5", "ndots:-",
                                          "ndots:4294967296", "ndots:4294967301", "ndots:8589934592",
